@@ -196,9 +196,33 @@ let handle (case : string) (out : string) : unit =
         if op <> !last_op then begin Buffer.add_string b (" O=" ^ op); last_op := op end;
         if Buffer.length b = 0 then "" else " |" ^ Buffer.contents b
     | _ -> "" in
-  let stop = ref false in
+  let stop = ref false in      (* the model no longer follows (diverged, panicked, out of fuel) *)
   List.iteri (fun i rcd ->
-    if not !stop then begin
+    if !stop then begin
+      (* keep reading the implementation's transcript for the monitors *)
+      let rcd = String.trim rcd in
+      let (act, obs) = (match split_on " | " rcd with [a] -> (a, "") | a :: o :: _ -> (a, o) | [] -> ("", "")) in
+      let toks = split_ws (canon_panic act) in
+      let taken = ref None in
+      List.iter (fun t ->
+        if starts_with "E=" t then taken := Some (events_of_string (String.sub t 2 (String.length t - 2)))
+        else if starts_with "O=" t then impl_op := opstate_of_code (int_of_string (String.sub t 2 (String.length t - 2)))
+        else if starts_with "P" t then begin
+          match String.index_opt t '=' with
+          | Some j ->
+              let k = int_of_string (String.sub t 1 (j - 1)) in
+              if k < nper then impl_obs.(k) <- pobs_of_string (String.sub t (j + 1) (String.length t - j - 1))
+          | None -> ()
+        end) (split_ws obs);
+      (match toks with
+       | [] | "INIT" :: _ | ["TIMEOUT"] | ["SETUP-PANIC"] | "BADCASE" :: _ -> ()
+       | _ ->
+           (try
+              let (inp, raw, iout) = parse_action toks in
+              steps := { s_in = inp; s_raw = raw; s_out = iout; s_taken = !taken;
+                         s_obs = Array.to_list impl_obs; s_op = !impl_op; s_text = canon_panic act ^ (if obs = "" then "" else " | " ^ obs) } :: !steps
+            with Bad _ -> ()))
+    end else begin
       let rcd = String.trim rcd in
       let (act, obs) = (match split_on " | " rcd with
                         | [a] -> (a, "")
@@ -320,7 +344,9 @@ let handle (case : string) (out : string) : unit =
     run "C04" "process_image" (c04_monitor conf !obs0 tsteps);
     run "C08" "fcb_retry" (c08_monitor conf tsteps);
     run "C14" "cycle_events" (c14_monitor conf !hs0 tsteps);
-    run "C07" "recovery" (c07_monitor conf tsteps);
+    (match c07_monitor conf tsteps with
+     | Some (_, code) when int_of_z code = 701 && c07_known_f15 conf tsteps -> report_known "C07" "F15" case
+     | v -> run "C07" "recovery" v);
     (match c07_cycles_needed conf tsteps with
      | Some n -> count (Printf.sprintf "dp:recovery-cycles:%02d" (int_of_nat n))
      | None -> ())
